@@ -34,19 +34,21 @@ LENSES = {
         ("prog_tenin", "prog_tenin", None, 30),
     ],
     "thorough": [
-        ("prog_arith", "prog_arith_t", None, 3000),
-        ("prog_cmp", "prog_cmp_t", None, 2500),
-        ("prog_pos", "prog_pos_t", None, 2500),
-        ("prog_int", "prog_int_t", None, 2500),
-        ("prog_con", "prog_con_t", None, 3000),
-        ("prog_tuple", "prog_tuple_t", None, 1200),
-        ("prog_deep", "prog_deep_t", None, 3000),
+        ("prog_arith", "prog_arith_t", None, 2000),
+        ("prog_cmp", "prog_cmp_t", None, 1500),
+        ("prog_pos", "prog_pos_t", None, 1500),
+        ("prog_int", "prog_int_t", None, 1500),
+        ("prog_con", "prog_con_t", None, 2000),
+        ("prog_tuple", "prog_tuple_t", None, 800),
+        ("prog_deep", "prog_deep_t", None, 2000),
         ("prog_nested", "prog_nested_t", None, 300),
         ("prog_tenin", "prog_tenin_t", None, 300),
     ],
 }
 MODEL_CFG = {"quick": "OpProgram", "thorough": "OpProgram_t"}
 PROCS = 14          # python worker processes
+# many TLC processes run side by side: keep each JVM's GC pool and young generation small
+JVM_OPTS = "-XX:ParallelGCThreads=2 -Xmn384m"
 JUDGE_PROCS = 10    # single-worker TLC processes judging side by side
 JUDGE_CHUNK = 2000  # events per TLC process (bounds its memory)
 BATCH = 4000        # expressions validated per round (bounds the driver's memory)
@@ -235,8 +237,7 @@ def validate(out, recs, t0=None):
 
 
 def run(tier):
-    # many single-worker TLC processes run side by side: keep each JVM's GC pool small
-    os.environ.setdefault("JAVA_TOOL_OPTIONS", "-XX:ParallelGCThreads=2")
+    os.environ.setdefault("JAVA_TOOL_OPTIONS", JVM_OPTS)
     out = check.Outcome("C18", tier)
     pd = _pd()
     seed = check.seed()
@@ -248,7 +249,7 @@ def run(tier):
     model_future = model_thread.submit(lambda: [r for r in model])
 
     # expressions from the lenses
-    with ThreadPoolExecutor(9) as ex:
+    with ThreadPoolExecutor(9 if tier == "quick" else 5) as ex:
         gen = list(ex.map(run_lens, LENSES[tier]))
     recs = []
     lens_info = []
@@ -345,9 +346,10 @@ def run(tier):
 def replay(path):
     """bin/check C18 --replay build/replay/C18-....json: validate the one expression again"""
     import json
-    os.environ.setdefault("JAVA_TOOL_OPTIONS", "-XX:ParallelGCThreads=2")
+    os.environ.setdefault("JAVA_TOOL_OPTIONS", JVM_OPTS)
     with open(path) as f:
         v = json.load(f)
+    check.EVIDENCE = os.path.join(tlc.BUILD, "replay-evidence")    # keep evidence/C18.json of the last full run
     out = check.Outcome("C18", "replay")
     rec = {"t": v["source"] if "source" in v else v["expr"], "pts": v["pts"], "tag": v.get("tag")}
     st = validate(out, [rec])
